@@ -27,7 +27,7 @@ from harness.mesondrv import PY, Result, run_inproc, run_sub, write_tree
 
 LEVEL = 'exploration'
 RULE = ('Hypothesis-generated test sets (1-12 tests quick / 1-24 thorough: parallel/serial, priority, duration 0-150 ms, '
-        'exit status 0/1/2/77/99/127/255, self-kill by signal, hang past the timeout (SIGTERM-cooperative or SIGTERM-ignoring), '
+        'exit status 0/1/2/77/99/127/255, self-kill by signal, a 70000-character line without line break on stdout or stderr, binary output, hang past the timeout (SIGTERM-cooperative or SIGTERM-ignoring), '
         'TAP streams, should_fail/expected_fail, timeout, suites, env, workdir) x `meson test` invocations '
         '(--num-processes 1-8 by flag or MESON_NUM_PROCESSES/MESON_TESTTHREADS, --repeat 1-3, --maxfail 0-3, --suite/--no-suite, '
         'positional names and wildcards, --slice, --setup, -t, output flags) plus seeded deterministic schedule probes. '
@@ -52,6 +52,7 @@ HANG_S = 12          # a hanger that is never killed ends by itself after this m
 T_PY = r'''
 import os, signal, sys, time
 tid, dur, mode, par = sys.argv[1], int(sys.argv[2]), sys.argv[3], sys.argv[4]
+noise = sys.argv[5] if len(sys.argv) > 5 else ''
 it = os.environ.get('MESON_TEST_ITERATION', '?')
 pid = os.getpid()
 fd = os.open(os.environ['C12_LOG'], os.O_WRONLY | os.O_APPEND | os.O_CREAT, 0o644)
@@ -77,6 +78,14 @@ if mode in ('hang', 'hangstub'):
     log('E')
     os._exit(0)
 time.sleep(dur / 1000.0)
+if noise == 'longline':        # what a test prints is its own business: a long progress line, a blob without line break
+    sys.stdout.write('.' * 70000)
+    sys.stdout.flush()
+elif noise == 'longerr':
+    sys.stderr.write('#' * 70000)
+    sys.stderr.flush()
+elif noise == 'binary':
+    os.write(1, bytes(range(256)) * 4)
 if mode == 'tap':
     sys.stdout.write(TAP[par])
     sys.stdout.flush()
@@ -197,7 +206,7 @@ def render_project(tests: T.List[dict]) -> T.Dict[str, str]:
             kw.append('workdir: meson.current_source_dir()')
         if t['mode'] == 'tap' or t.get('tapproto'):
             kw.append("protocol: 'tap'")
-        args = f"['-S', '-E', t, {_q(t['name'])}, {_q(str(t['dur']))}, {_q(t['mode'])}, {_q(str(t['par']))}]"
+        args = f"['-S', '-E', t, {_q(t['name'])}, {_q(str(t['dur']))}, {_q(t['mode'])}, {_q(str(t['par']))}, {_q(t.get('noise', ''))}]"
         lines.append(f"test({_q(t['name'])}, py, args: {args}" + ''.join(', ' + k for k in kw) + ')')
     lines.append("add_test_setup('su1', env: ['C12_SETUP=su1'])")
     lines.append("add_test_setup('su2', exclude_suites: ['sB'], timeout_multiplier: 2)")
@@ -224,6 +233,7 @@ def norm_test(t: dict, idx: int) -> dict:
         'tapproto': bool(t.get('tapproto', False)),
         'par_explicit': bool(t.get('par_explicit', False)),
         'taprc': int(t.get('taprc', 0) or 0),
+        'noise': t.get('noise', '') if t.get('mode', 'exit') in ('exit', 'signal') else '',
     }
     if o['mode'] in ('hang', 'hangstub'):
         o['timeout'] = 1
@@ -774,6 +784,7 @@ def case_strategy(max_tests: int, max_invs: int):
         t['suites'] = draw(st.lists(st.sampled_from(SUITES), max_size=2, unique=True))
         t['env'] = draw(st.booleans())
         t['workdir'] = draw(st.sampled_from([False, False, True]))
+        t['noise'] = draw(st.sampled_from(['', '', '', '', 'longline', 'longerr', 'binary']))
         return t
 
     @st.composite
